@@ -415,6 +415,76 @@ theorem C14_catalogue_distinct (a b : MsgId) (h : a.template = b.template) : a =
 theorem C14_catalogue_complete (m : MsgId) : m ∈ MsgId.all := by
   cases m <;> decide
 
+/-! ## tie to the source: every message the model can produce is one the corresponding Python function refers to -/
+
+/-- the `ValidationError` identifiers the source function `fn` refers to (generated from the AST) -/
+def emitsOf (fn : String) : List MsgId := (emits.filter (fun p => p.1 == fn)).flatMap (·.2)
+
+theorem C14_emits_entity (e : Ent) (m : Msg) (h : m ∈ checkEntity e) :
+    ∃ k ∈ emitsOf "check_entity", m = .plain k := by
+  rcases checkEntity_ids e m h with rfl | rfl | rfl | rfl <;> exact ⟨_, by decide, rfl⟩
+
+theorem C14_emits_dims (d : Dim) (idx : Nat) (m : Msg) :
+    (m ∈ checkRangeDim d idx → ∃ k ∈ emitsOf "check_range_dimension", m = .dim k idx) ∧
+    (m ∈ checkSampledDim d idx → ∃ k ∈ emitsOf "check_sampled_dimension", m = .dim k idx) := by
+  constructor
+  · rw [mem_checkRangeDim]
+    rintro (⟨rfl, -⟩ | ⟨rfl, -⟩ | ⟨rfl, -⟩) <;> exact ⟨_, by decide, rfl⟩
+  · rw [mem_checkSampledDim]
+    rintro (⟨rfl, -⟩ | ⟨rfl, -⟩ | ⟨rfl, -⟩) <;> exact ⟨_, by decide, rfl⟩
+
+theorem C14_emits_feature_property (arrays : List DataArray) (ft : Feature) (p : Property) (i : Nat) (m : Msg) :
+    (m ∈ checkFeature arrays ft i → ∃ k ∈ emitsOf "check_feature", m = .feature i k) ∧
+    (m ∈ checkProperty p i → ∃ k ∈ emitsOf "check_property", m = .property i k) := by
+  constructor
+  · rw [mem_checkFeature]
+    rintro (⟨rfl, -⟩ | ⟨rfl, -⟩ | ⟨rfl, -⟩ | ⟨rfl, -⟩) <;> exact ⟨_, by decide, rfl⟩
+  · rw [mem_checkProperty]
+    rintro (⟨rfl, -⟩ | ⟨rfl, -⟩) <;> exact ⟨_, by decide, rfl⟩
+
+theorem C14_emits_tags (arrays : List DataArray) (t : Tag) (mt : MultiTag) (m : Msg) :
+    (m ∈ checkTag arrays t →
+      (∃ k ∈ emitsOf "check_entity" ++ emitsOf "check_tag", m = .plain k) ∨ ∃ i k, k ∈ emitsOf "check_feature" ∧ m = .feature i k) ∧
+    (m ∈ checkMultiTag arrays mt →
+      (∃ k ∈ emitsOf "check_entity" ++ emitsOf "check_multi_tag", m = .plain k) ∨ ∃ i k, k ∈ emitsOf "check_feature" ∧ m = .feature i k) := by
+  constructor
+  · rw [mem_checkTag, mem_refUnitMsgs]
+    rintro (h | ⟨rfl, -⟩ | ⟨rfl, -⟩ | ⟨-, ⟨rfl, -⟩ | ⟨rfl, -⟩ | ⟨rfl, -⟩ | ⟨rfl, -⟩⟩ | ⟨rfl, -⟩ | ⟨i, ft, -, h⟩)
+    · obtain ⟨k, hk, rfl⟩ := C14_emits_entity _ _ h
+      exact Or.inl ⟨k, List.mem_append_left _ hk, rfl⟩
+    all_goals first
+      | exact Or.inl ⟨_, by decide, rfl⟩
+      | (obtain ⟨k, hk, rfl⟩ := (C14_emits_feature_property arrays ft ⟨none, false, none⟩ i m).1 h
+         exact Or.inr ⟨i, k, hk, rfl⟩)
+  · rw [mem_checkMultiTag, mem_refUnitMsgs]
+    rintro (h | ⟨rfl, -⟩ | ⟨rfl, -⟩ | ⟨-, ⟨rfl, -⟩ | ⟨rfl, -⟩ | ⟨rfl, -⟩ | ⟨rfl, -⟩⟩ | ⟨rfl, -⟩ | ⟨i, ft, -, h⟩)
+    · obtain ⟨k, hk, rfl⟩ := C14_emits_entity _ _ h
+      exact Or.inl ⟨k, List.mem_append_left _ hk, rfl⟩
+    all_goals first
+      | exact Or.inl ⟨_, by decide, rfl⟩
+      | (obtain ⟨k, hk, rfl⟩ := (C14_emits_feature_property arrays ft ⟨none, false, none⟩ i m).1 h
+         exact Or.inr ⟨i, k, hk, rfl⟩)
+
+theorem C14_emits_array (da : DataArray) (m : Msg) (h : m ∈ checkDataArray da) :
+    (∃ k ∈ emitsOf "check_entity" ++ emitsOf "check_data_array", m = .plain k) ∨
+    (∃ idx k, k ∈ emitsOf "check_data_array" ++ emitsOf "check_range_dimension" ++ emitsOf "check_sampled_dimension" ∧
+        (m = .dim k idx ∨ ∃ v, m = .dim2 k idx v)) := by
+  rw [mem_checkDataArray] at h
+  rcases h with h | ⟨rfl, -⟩ | ⟨rfl, -⟩ | ⟨i, d, n, -, h⟩
+  · obtain ⟨k, hk, rfl⟩ := C14_emits_entity _ _ h
+    exact Or.inl ⟨k, List.mem_append_left _ hk, rfl⟩
+  · exact Or.inl ⟨_, by decide, rfl⟩
+  · exact Or.inl ⟨_, by decide, rfl⟩
+  · unfold DimSpec at h
+    rcases h with ⟨rfl, -⟩ | ⟨rfl, -⟩ | ⟨rfl, -⟩ | ⟨rfl, -⟩ | ⟨rfl, -⟩ | ⟨rfl, -⟩ | ⟨rfl, -⟩ | ⟨rfl, -⟩ | ⟨rfl, -⟩
+    all_goals first
+      | exact Or.inr ⟨_, _, by decide, Or.inl rfl⟩
+      | exact Or.inr ⟨_, _, by decide, Or.inr ⟨_, rfl⟩⟩
+
+/-- `check_file` visits the containers of a block in the order the model's `blockChecks` does, then the sections -/
+theorem C14_traversal_order :
+    blockOrder = ["groups", "data_arrays", "tags", "multi_tags", "sources"] ∧ afterBlocks = ["traverse_sections"] := by
+  decide
 /-! ## "no ID set": never reported for an entity (genuine defect, known finding) -/
 
 /-- full statement: validating reports "no ID set" for an object iff its id is missing -/
